@@ -166,7 +166,7 @@ def run_shard(shard, tier, seed, wd, res):
         for t in sorted(set(REC1 + REC2)):
             for d in (-1, 0, 1):
                 s.op(gp + ".rec_num", V.n(max(0, t + d)))
-        for v in [0, 1 << 20, 1 << 31, 1 << 32, (1 << 62), (1 << 63) - 1] + [rng.getrandbits(rng.randrange(1, 40)) for _ in range(100)]:
+        for v in [0, 1 << 20, 1 << 31, (1 << 32) - 1, 1 << 32, (1 << 62), (1 << 63) - 1, -(1 << 63), -2, -1] +  [rng.getrandbits(rng.randrange(1, 40)) for _ in range(100)]:
             s.op(gp + ".rec_num", V.n(v))
     H.monitor_script(__import__("props.c02", fromlist=["x"]), s.text(), BUILDS, wd, res, shard, timeout=1500)
 
